@@ -248,13 +248,15 @@ example :
 /-! ## 4. the device output buffer -/
 
 /-- **`_handle_ready_device` and the buffer**: afterwards the buffer is `kept ++ reply`, where `kept` is the whole
-    buffer as it was, or nothing after a successful `write` (the model's `write` takes the whole buffer or fails), and
-    `reply` is empty or the telnet option replies to the bytes just read (tcp devices only). -/
+    buffer as it was, or what stays of it behind the non-empty prefix `wr` that a successful `write` took (the kernel
+    takes as much as it has room for: `wr ++ kept` is the buffer as it was, in order, nothing lost or repeated), and
+    `reply` is empty or the telnet option replies to the bytes just read (tcp devices only; `readOf c.dev bs` is the
+    prefix of what the kernel had, `bs`, that the input buffer asked for: `C09_read_is_prefix`). -/
 theorem C10_handle_ready_buffer (c : CS) :
     ∃ kept reply, (handleReady c).1.dev.toBuf = kept ++ reply ∧
-      (kept = c.dev.toBuf ∨ (kept = [] ∧ Sys.write c.dev.toBuf true ∈ (handleReady c).1.sys)) ∧
+      (kept = c.dev.toBuf ∨ (∃ wr, wr ≠ [] ∧ wr ++ kept = c.dev.toBuf ∧ Sys.write wr true ∈ (handleReady c).1.sys)) ∧
       (reply = [] ∨ ∃ bs, c.env.read = some (some bs) ∧ c.dev.isPipe = false ∧
-          reply = telnetReplies c.dev.tstate c.dev.tcmd bs) :=
+          reply = telnetReplies c.dev.tstate c.dev.tcmd (readOf c.dev bs)) :=
   handleReady_buf c
 
 /-- the telnet replies are `IAC WILL x` / `IAC WONT x` triples and nothing else -/
@@ -298,8 +300,9 @@ theorem C10_passSents (fuel : Nat) (c : CS) (o : Oracle) (out : List Out) (tmo :
     (`C10_run_sends_what_heads_say`). -/
 theorem C10_post_poll_buffer (d : Dev) (env : Env) (o : Oracle) :
     ∃ kept reply,
-      (kept = d.toBuf ∨ (kept = [] ∧ Sys.write d.toBuf true ∈ (postPollReady d env).1.sys)) ∧
-      (reply = [] ∨ ∃ bs, env.read = some (some bs) ∧ d.isPipe = false ∧ reply = telnetReplies d.tstate d.tcmd bs) ∧
+      (kept = d.toBuf ∨ (∃ wr, wr ≠ [] ∧ wr ++ kept = d.toBuf ∧ Sys.write wr true ∈ (postPollReady d env).1.sys)) ∧
+      (reply = [] ∨ ∃ bs, env.read = some (some bs) ∧ d.isPipe = false ∧
+        reply = telnetReplies d.tstate d.tcmd (readOf d bs)) ∧
       ((postPoll d env o).1.dev.toBuf = kept ++ reply ++ sentBytes (postPoll d env o).2.2.1 ∨
        ((postPoll d env o).1.dev.toBuf = sentBytes (postPoll d env o).2.2.1 ∧
           (postPollReady d env).2 = true ∧ (postPollReady d env).1.dev.conn ≠ 0) ∨
